@@ -28,7 +28,7 @@ LEVEL_NOTE = ("Trusted: the scope model in nslverif/gen/scope.py (conflicts()), 
 RULE = ("case = (scope tree, insertion point, inserted item); non-trivial when the inserted name is visible there or declared only "
         "in a closed/disjoint scope (fresh names are trivial); distinct by source text.")
 ASSUMPTIONS = ["programs are otherwise valid by construction", "the scope of an if statement holds no names of its own"]
-SHARD_TIMEOUT = {"quick": 900, "thorough": 3600}
+SHARD_TIMEOUT = {"quick": 900, "thorough": 7200}
 INPUTS = [({"p": v}, None) for v in (0, 1, 2)]
 
 
